@@ -99,13 +99,15 @@ def _assume_domain(ctx: Ctx, cfg: dict, names, cells, s: Script, tol, min_iter, 
         ctx.assume(z3.And(offset.t >= -L - 1, offset.t <= L + 1), f'-L-1 <= offset <= L+1 (L={L})')
     for p in range(1, B + 1):
         if isinstance(s.kind[p], SInt):
-            ctx.assume(z3.And(s.kind[p].t >= 0, s.kind[p].t <= KIND_MAX[0]), f'fault kind of pass {p} in {{none,RuntimeWarning,raise,raise SolutionError,UserWarning,DeprecationWarning}}[:{KIND_MAX[0] + 1}]')
+            kmax = KIND_MAX[0] if cfg['B'] <= 2 else 3     # the extra warning categories are crossed with up to two passes
+            ctx.assume(z3.And(s.kind[p].t >= 0, s.kind[p].t <= kmax), f'fault kind of pass {p} in {{none,RuntimeWarning,raise,raise SolutionError,UserWarning,DeprecationWarning}}[:{kmax + 1}]')
             ctx.assume(z3.And(s.fs[p].t >= 0, s.fs[p].t <= max(N, 1) - 1), f'fault statement of pass {p} in range')
     if cfg.get('status0') == 'sym':
         ctx.assume(z3.And(z3.Int('status0') >= 0, z3.Int('status0') < len(STATUS_LIST)), f'status of period t before the call in {STATUS_LIST}')
     for h in (s.kb, s.ka):
         if isinstance(h, SInt):
-            ctx.assume(z3.And(h.t >= 0, h.t <= 3), 'hook fault kind in {none,RuntimeWarning,raise,UserWarning}')
+            hmax = 3 if cfg['B'] <= 1 else 2
+            ctx.assume(z3.And(h.t >= 0, h.t <= hmax), f'hook fault kind in {{none,RuntimeWarning,raise,UserWarning}}[:{hmax + 1}]')
     if cfg['finite']:
         fin = []
         for n in check_names(N):
